@@ -621,6 +621,7 @@ def check_buf(run: Run, prog: Program) -> None:
     run.check(ok, "C19.BUF", fn.qual, "engine generated lazily in start()", "start() does not create the "
               "fallback engine and its receiver", node=fn.node, file=fn.file)
     ir = prog.func(f"{FFM}:FallbackFormulaMetricFetcher.is_running")
+    run.analysed(ir.qual)
     rets = [r for r in body_walk(ir.node) if isinstance(r, ast.Return)]
     run.check(len(rets) == 1 and canon(rets[0].value) == ("isnot", frozenset({"self._receiver", "None"})),  # type: ignore[arg-type]
               "C19.LAZY", ir.qual, "is_running == receiver exists",
